@@ -226,14 +226,18 @@ func (s *connectionWorker) serve(ctx context.Context, session *sessions.Session)
 }
 
 func (s *manager) shutdownSession(ctx context.Context, session *sessions.Session) {
-	s.local.Delete(session.ID())
+	if s.local.Delete(session.ID()) == nil {
+		// already shut down
+		return
+	}
+	session.Close()
 	topics := session.GetTopics()
 	for idx := range topics {
 		s.state.Subscriptions().Delete(session.ID(), topics[idx])
 	}
 	metadata, err := s.state.SessionMetadatas().ByClientID(session.ClientID())
 	if err == nil {
-		if metadata.SessionID != session.ID() || session.Disconnected {
+		if metadata.SessionID != session.ID() {
 			// Session has reconnected on another peer.
 			return
 		}
